@@ -12,21 +12,23 @@ int verif_allzero; /* ghost: set by the harness when the array given to is_zero_
 
 #ifndef VERIF_NATIVE
 void h_util_bits(void) {
-    INPUT(uint64_t, x); INPUT(uint32_t, y); INPUT(unsigned, by); INPUT(int64_t, sv); INPUT(int, ia); INPUT(int, ib); INPUT(int, flag);
-    int c, r; uint64_t ab; unsigned k;
-    /* clz64_var: 64 for 0, otherwise the position of the highest set bit counted from the top */
-    c = secp256k1_clz64_var(x);
-    __CPROVER_assert(x == 0 ? c == 64 : (c >= 0 && c <= 63 && (x >> (63 - c)) == 1), "C05 clz64_var: number of leading zero bits (64 for 0)");
-    /* ctz: x != 0 */
-    if (x != 0) {
-        c = secp256k1_ctz64_var(x);
-        __CPROVER_assert(c >= 0 && c <= 63 && ((x >> c) & 1) == 1 && (x & ((((uint64_t)1) << c) - 1)) == 0, "C05 ctz64_var: index of the lowest set bit");
+    INPUT(uint64_t, h); INPUT(uint32_t, y); INPUT(unsigned, by); INPUT(int64_t, sv); INPUT(int, ia); INPUT(int, ib); INPUT(int, flag);
+    int c, r; uint64_t ab, x; uint32_t x32; unsigned k;
+    /* Exhaustive case split on the answer c (a constant in each iteration), all other bits symbolic:
+     *   every x != 0 is uniquely  (h << (c+1)) | 2^c  with c = index of the lowest set bit      (ctz)
+     *   every x != 0 is uniquely  2^(63-c) | (h mod 2^(63-c))  with c = number of leading zeros   (clz)  */
+    for (c = 0; c < 64; c++) {
+        x = ((c == 63) ? 0 : (h << (c + 1))) | (((uint64_t)1) << c);
+        __CPROVER_assert(secp256k1_ctz64_var(x) == c, "C05 ctz64_var: index of the lowest set bit");
         __CPROVER_assert(secp256k1_ctz64_var_debruijn(x) == c, "C05 ctz64_var_debruijn: index of the lowest set bit (table fallback)");
+        x = (((uint64_t)1) << (63 - c)) | (h & ((((uint64_t)1) << (63 - c)) - 1));
+        __CPROVER_assert(secp256k1_clz64_var(x) == c, "C05 clz64_var: number of leading zero bits");
     }
-    if (y != 0) {
-        c = secp256k1_ctz32_var(y);
-        __CPROVER_assert(c >= 0 && c <= 31 && ((y >> c) & 1) == 1 && (y & ((((uint32_t)1) << c) - 1)) == 0, "C05 ctz32_var: index of the lowest set bit");
-        __CPROVER_assert(secp256k1_ctz32_var_debruijn(y) == c, "C05 ctz32_var_debruijn: index of the lowest set bit (table fallback)");
+    __CPROVER_assert(secp256k1_clz64_var(0) == 64, "C05 clz64_var: 64 for 0");
+    for (c = 0; c < 32; c++) {
+        x32 = ((c == 31) ? 0 : (y << (c + 1))) | (((uint32_t)1) << c);
+        __CPROVER_assert(secp256k1_ctz32_var(x32) == c, "C05 ctz32_var: index of the lowest set bit");
+        __CPROVER_assert(secp256k1_ctz32_var_debruijn(x32) == c, "C05 ctz32_var_debruijn: index of the lowest set bit (table fallback)");
     }
     /* rotr32 for EVERY rotation amount: bits move down by (by mod 32) with wrap-around */
     k = by % 32;
@@ -40,12 +42,10 @@ void h_util_bits(void) {
     r = ia;
     secp256k1_int_cmov(&r, &ib, flag);
     __CPROVER_assert(r == (flag ? ib : ia), "C05 int_cmov: r = flag ? a : r");
-    if (x == 0) REACH("clz64_var of 0");
-    if (x == 1) REACH("clz64_var of 1");
-    if (x == ((uint64_t)1 << 63)) REACH("ctz64 of 2^63");
     if (sv == INT64_MIN) REACH("sign_and_abs64 of INT64_MIN");
     if (by > 32 && k == 0) REACH("rotr32 by a multiple of 32");
     if (flag && ia != ib) REACH("int_cmov taken");
+    if (h == 0xFFFFFFFFFFFFFFFFULL) REACH("ctz/clz all other bits set");
 }
 void h_util_endian(void) {
     INPUT_ARR(unsigned char, p, 8); INPUT(uint32_t, x32); INPUT(uint64_t, x64); INPUT(unsigned, k);
